@@ -193,9 +193,10 @@ impl EventLoop {
             // Handles pending and new requests.
             // If available, prioritises pending requests from previous session.
             // Else, pulls next request from user requests channel.
-            // If conditions in the below branch are for flow control.
-            // The branch is disabled if there's no pending messages and new user requests
-            // cannot be serviced due flow control.
+            // If conditions in the below branch are for flow control. They apply to pending
+            // requests as well: pending also holds the user requests that were still queued
+            // when the connection failed, and handing a publish to the state while a
+            // collision is parked would overwrite (lose) the parked one.
             // We read next user user request only when inflight messages are < configured inflight
             // and there are no collisions while handling previous outgoing requests.
             //
@@ -222,7 +223,7 @@ impl EventLoop {
                 &mut self.pending,
                 &self.requests_rx,
                 self.options.pending_throttle
-            ), if !self.pending.is_empty() || (!inflight_full && !collision) => match o {
+            ), if !inflight_full && !collision => match o {
                 Ok(request) => {
                     if let Some(outgoing) = self.state.handle_outgoing_packet(request)? {
                         network.write(outgoing).await?;
